@@ -23,6 +23,24 @@ pub struct Case {
     /// every word is [a-z]+ and separators are single spaces: the oracle needs no crate helper
     pub plain: bool,
     pub queries: Vec<String>,
+    /// this many distinct one-off filler words (100 per line) are inserted after the first line of
+    /// the first file (0 = none): more distinct entries than 2^16 while counting
+    #[serde(default)]
+    pub filler: usize,
+}
+
+fn filler_word(mut i: usize) -> String {
+    // [a-z]+ only, so that the plain profile stays plain; never collides with the vocabularies
+    let mut w = String::from("zq");
+    loop {
+        w.push((b'a' + (i % 26) as u8) as char);
+        i /= 26;
+        if i == 0 {
+            break;
+        }
+    }
+    w.push('q');
+    w
 }
 
 pub struct C20;
@@ -106,7 +124,7 @@ impl Prop for C20 {
     type Case = Case;
     const ID: &'static str = "C20";
     const RULE: &'static str = "1-3 files x 0-8 lines over a small vocabulary with punctuation, digits, hyphens, apostrophes, mixed case, NFKC-expanding and multi-byte words and unclean separators (general profile) or plain [a-z]+ words with single spaces (independent profile) x max_size in {None, 0, 1, 2, |V|-1, |V|, |V|+5} x max_sequences in {None, 0, 1, total-1, total+3} x num_threads 0..=4 x {words, chars(1), chars(3), invalid char_grams} x query strings near the vocabulary. Oracle: sequential recount, top-k validity predicate, freq_sum, equality across thread counts, save/load round trip, get_closest minimal-distance / maximal-frequency predicate with the C12 reference distance. Non-trivial: >= 3 distinct entries, a frequency tie at the cut, >= 2 threads. Distinct = distinct serialised case.";
-    const ESSENTIAL: &'static [&'static str] = &["max_size_none", "max_size_0", "cut", "tie_at_cut", "words", "chars1", "chars3", "invalid_char_grams", "threads>1", "plain", "max_sequences", "closest"];
+    const ESSENTIAL: &'static [&'static str] = &["max_size_none", "max_size_0", "cut", "tie_at_cut", "words", "chars1", "chars3", "invalid_char_grams", "threads>1", "plain", "max_sequences", "closest", "more_than_65536_distinct_entries"];
 
     fn budget(tier: Tier) -> Budget {
         match tier {
@@ -161,8 +179,22 @@ impl Prop for C20 {
                         };
                         // plain profile is about word counting
                         let mode = if plain && mode == 2 { 0 } else { mode };
-                        Case { files, max_size, max_sequences, threads, mode, plain, queries }
+                        Case { files, max_size, max_sequences, threads, mode, plain, queries, filler: 0 }
                     })
+            })
+            .prop_flat_map(|c| {
+                // one case in 300: more than 2^16 distinct entries with a small max_size
+                prop_oneof![
+                    300 => Just(c.clone()),
+                    1 => (66000usize..=70000, select(vec![1usize, 3, 1000])).prop_map(move |(filler, k)| Case {
+                        filler,
+                        max_size: Some(k),
+                        max_sequences: None,
+                        mode: 0,
+                        queries: vec![],
+                        ..c.clone()
+                    }),
+                ]
             })
             .boxed()
     }
@@ -179,6 +211,25 @@ impl Prop for C20 {
     fn check(c: &Case, _strict: bool) -> Outcome {
         let mut out = Outcome::new();
         let dir = work_dir();
+        let with_filler;
+        let c = if c.filler > 0 {
+            out.label("more_than_65536_distinct_entries");
+            let mut files = c.files.clone();
+            if files.is_empty() {
+                files.push(vec![]);
+            }
+            let at = files[0].len().min(1);
+            let mut block = vec![];
+            let words: Vec<String> = (0..c.filler).map(filler_word).collect();
+            for ch in words.chunks(100) {
+                block.push(ch.join(" "));
+            }
+            files[0].splice(at..at, block);
+            with_filler = Case { files, filler: 0, ..c.clone() };
+            &with_filler
+        } else {
+            c
+        };
         let mut paths = vec![];
         for (i, lines) in c.files.iter().enumerate() {
             let p = dir.join(format!("c20-{i}.txt"));
